@@ -335,7 +335,7 @@ class HistoryRunner:
             if cex != mex:
                 extra = sorted((cex - mex).elements())
                 missing = sorted((mex - cex).elements())
-                self.violate("C02", "exec-set", dict(ctx, extra=extra, missing=missing),
+                self.violate(getattr(self, "execset_prop", "C02"), "exec-set", dict(ctx, extra=extra, missing=missing),
                              {"symptom": "extra" if extra and not missing else
                               ("missing" if missing and not extra else "both"),
                               "nested_csum": bool(nested and not missing)})
@@ -354,10 +354,28 @@ class HistoryRunner:
                 self.violate("C05", "nested-status", dict(ctx, got=sorted(map(list, got.elements())),
                                                           want=sorted(map(list, want.elements()))),
                              {"symptom": "nested-status"})
+        if "ood-after-fail" in ch and not ok:
+            q = runner.run_cmd(disk, ["redo-ood"], cwd="", env_extra=self.env)
+            listed = set(l for l in q.out.decode("utf-8", "replace").split("\n") if l)
+            want = []
+            for t in m.targets:
+                r = m.rec.get(t)
+                f = m.fs.get(t)
+                if r is None or f is None or f.owner != "redo" or not r.gen:
+                    continue
+                if r.failed or any((m.rec.get(q2) is not None and m.rec[q2].failed and q2 in m.targets)
+                                   for q2 in m.closure(t) if q2 != t) and t in targets:
+                    want.append(t)
+            missing = sorted(t for t in want if t not in listed)
+            if q.rc != 0 or missing:
+                self.violate("C05", "failed-not-ood", dict(ctx, ood=sorted(listed), missing=missing, rc=q.rc),
+                             {"symptom": "failed-not-ood"})
+            ev["c05:ood-checked-after-failure"] += 1
         if "once" in ch:
             dup = [t for t, n in cex.items() if n > 1]
             if dup:
-                self.violate("C07", "twice-in-run", dict(ctx, dup=dup), {"symptom": "twice"})
+                self.violate(getattr(self, "once_prop", "C07"), "twice-in-run", dict(ctx, dup=dup),
+                             {"symptom": "twice"})
         if "stray" in ch:
             s = disk.stray_files()
             if s:
